@@ -60,6 +60,19 @@ theorem var_grad_quadratic {n : Nat} (A : Matrix (Fin n) (Fin n) ℝ) (hA : A.tr
     HasDerivAt (fun y => c - (k y) ⬝ᵥ (A.mulVec (k y))) (-2 * (dk ⬝ᵥ (A.mulVec (k x)))) x :=
   var_grad_quadratic' A hA k dk c x hk
 
+/-- **the coded kernel gradient `2·factor·(x − Xᵢ)·kx` is the derivative of the RBF kernel value** along a
+coordinate (`c` = squared distance in the other coordinates) -/
+theorem rbf_kernel_grad (v f a c x : ℝ) :
+    HasDerivAt (fun y => rbfK Real.exp v f ((y - a) * (y - a) + c))
+      (rbfDk x a f (rbfK Real.exp v f ((x - a) * (x - a) + c))) x :=
+  rbf_kernel_grad' v f a c x
+
+/-- **the fast mean gradient `dkdxᵀ · woodbury_vector` is the derivative of the fast mean `kx · woodbury_vector`** -/
+theorem fast_mean_grad {n : Nat} (k : ℝ → Fin n → ℝ) (dk α : Fin n → ℝ) (x : ℝ)
+    (hk : ∀ i, HasDerivAt (fun y => k y i) (dk i) x) :
+    HasDerivAt (fun y => (k y) ⬝ᵥ α) (dk ⬝ᵥ α) x :=
+  fast_mean_grad' k dk α x hk
+
 /-- **Adding evidence keeps all earlier evidence unchanged and in order**, for any number of updates. -/
 theorem evidence_append {α : Type} (old : List α) (news : List (List α)) :
     ∃ rest, news.foldl updateEvidence old = old ++ rest ∧ rest = news.flatten :=
